@@ -188,8 +188,14 @@ def run(chk):
             for m in muts:
                 if m[0] == "assign-field" and m[1] == (ui,):
                     v = core.describe(prog, h, m[3]["rv"]["o"])
+                    # a copy of request.uri itself: between the field and the copying call only reference conversions (a `trim_start_matches`,
+                    # `replace`, slice, ... in between relays a different path)
+                    def bare_uri(z):
+                        while z[0] == "call" and core.re.search(r"(Deref>::deref|AsRef<\w+>>::as_ref|::as_str|Borrow<\w+>>::borrow|::as_ref|::deref)$", z[1]) and z[2]:
+                            z = z[2][0]
+                        return z[0] == "field" and z[2] == ui and desc_contains(z[1], lambda q: q[0] == "param" and q[2] == "request")
                     ok = desc_contains(v, lambda y: y[0] == "call" and core.re.search(r"(Clone>::clone|ToString>::to_string|ToOwned>::to_owned|::to_string|::to_owned|String as std::convert::From<&str>>::from)$", y[1]) is not None and
-                                       desc_contains(y[2], lambda z: z[0] == "field" and z[2] == ui))
+                                       bool(y[2]) and bare_uri(y[2][0]))
                     chk.ob("R3.forwarded", PH, "relayed uri derives from the request's uri", ok, f"uri value {core.short(str(v))[:100]}")
     # ---- R4 lock released before the network call
     he = prog.elab.get(PH)
